@@ -74,6 +74,7 @@ type thread struct {
 	low      bool // scheduled only when no normal thread can run, in the default order
 	inject   string // runtime panic to raise inside the thread when it resumes
 	parkSeq  int
+	spin     int // loop iterations since the last scheduling point (see Spin)
 	hist     uint64
 	steps    int
 }
@@ -437,6 +438,7 @@ func (s *Sched) park(o *op) *thread {
 		panic(abortSentinel{})
 	}
 	t.pend = o
+	t.spin = 0
 	t.parkSeq = s.parkCount
 	s.parkCount++
 	s.parked <- struct{}{}
